@@ -37,14 +37,14 @@ VALUES = ["x", ""]
 
 
 def anchors():
-    from simfile._private import property as P
-    from simfile.sm import SMChart
+    from ..core import pick
 
-    sample = P.item_property("STOPS", alias="FREEZES")
-    out = {"item_property.getter": sample.fget, "item_property.setter": sample.fset, "item_property.deleter": sample.fdel,
-           "SMChart.__getitem__": SMChart.__getitem__, "SMChart.__setitem__": SMChart.__setitem__,
-           "SMChart.__delitem__": SMChart.__delitem__}
-    return out
+    return pick(
+        "simfile._private.property:item_property",
+        "simfile.sm:SMChart.__getitem__",
+        "simfile.sm:SMChart.__setitem__",
+        "simfile.sm:SMChart.__delitem__",
+    )
 
 
 def all_states(keys):
